@@ -71,6 +71,9 @@ func probeSuite(c Cfg) []Req {
 			[]string{strings.Join(allowedL, ", ")},
 			[]string{allowedL[0]},
 			[]string{strings.Join(append(append([]string{}, allowedL...), "x-not-allowed"), ",")},
+			[]string{allowedL[0], "x-not-allowed"},                   // good first field line, bad later one
+			[]string{strings.Join(allowedL, ","), "zz-not-allowed"}, // the complete allowed list, then a bad line
+			[]string{"", allowedL[0]},                                // empty first field line
 		)
 		if len(allowedL) > 1 {
 			hdrLists = append(hdrLists,
@@ -123,12 +126,14 @@ func probeSuite(c Cfg) []Req {
 	return qs
 }
 
-// debugProbe returns a preflight from an allowed origin that fails after the
-// origin step under c (so that debug mode is observable), or ok=false.
-func debugProbe(c Cfg) (Req, bool) {
+// debugProbes returns every preflight from an allowed origin that fails AFTER
+// the origin step under c (so that debug mode is observable): by method, by
+// private-network request, by requested headers (single name, padded list,
+// list with an allowed name in front).
+func debugProbes(c Cfg) []Req {
 	match, _ := originsFor(c)
 	if len(match) == 0 {
-		return Req{}, false
+		return nil
 	}
 	o := match[0]
 	hasStar := func(l []string) bool {
@@ -139,14 +144,37 @@ func debugProbe(c Cfg) (Req, bool) {
 		}
 		return false
 	}
+	var out []Req
 	if !hasStar(c.Methods) {
-		return preflight(o, "UNLISTED", nil, false), true
+		out = append(out, preflight(o, "UNLISTED", nil, false))
 	}
 	if !c.PNA && !c.PNANoCors {
-		return preflight(o, "GET", nil, true), true
+		out = append(out, preflight(o, "GET", nil, true))
 	}
 	if !hasStar(c.RequestHeaders) {
-		return preflight(o, "GET", []string{"x-not-allowed"}, false), true
+		out = append(out, preflight(o, "GET", []string{"x-not-allowed"}, false))
+		var allowed []string
+		for _, h := range c.RequestHeaders {
+			allowed = append(allowed, h)
+		}
+		if al := lowerSortedUnique(allowed); len(al) > 0 {
+			out = append(out, preflight(o, "GET", []string{al[0] + ",zz-not-allowed"}, false))
+		}
 	}
-	return Req{}, false
+	return out
+}
+
+// debugProbe returns the first of debugProbes(c), or ok=false.
+func debugProbe(c Cfg) (Req, bool) { return debugProbeK(c, 0) }
+
+// debugProbeK returns the k-th (mod n) debug probe of c.
+func debugProbeK(c Cfg, k int) (Req, bool) {
+	ps := debugProbes(c)
+	if len(ps) == 0 {
+		return Req{}, false
+	}
+	if k < 0 {
+		k = -k
+	}
+	return ps[k%len(ps)], true
 }
